@@ -258,7 +258,8 @@ def layerB_chunk(item):
 LAYER_B = {
     'quick': [(c, (0., 1.), 1, 2, '') for c in CURVES] + [(c, (0., 0.125), 0, 2, '') for c in ('UnitSquare', 'Circle')]
              + [(c, (0., 0.3, 1.), 0, 1, '') for c in ('UnitSquare', 'LShape')]
-             + [(c, (0., 1., 2.), 1, 1, '') for c in ('UnitSquare', 'Circle')],
+             + [(c, (0., 1., 2.), 1, 1, '') for c in ('UnitSquare', 'Circle')]
+             + [(c, (0., 1.), 2, 1, '') for c in ('UnitSquare', 'Circle')],  # time level difference 2: strictly nested time intervals
     'thorough': [(c, (0., 1.), 2, 3, '') for c in CURVES] + [(c, (0., 1., 2.), 1, 2, '') for c in CURVES]
                 + [(c, (0., 0.125), 1, 2, '') for c in CURVES] + [(c, (0., 0.3, 1.), 1, 2, '') for c in CURVES]
                 + [('LShape', (0., 1.), 1, 2, 'driver')],
